@@ -135,7 +135,11 @@ def handle (cmd : String) (args : List String) : String :=
     match track? args with
     | some (tr, [f, a, out]) => match str? f, str? a, str? out with
       | some f, some a, some out =>
-        if isVoidFn f then showRes (voidRes (opVoidFn tr f a out)) else "bad-request"
+        if isVoidFn f then
+          -- `Log.execute` returns nothing
+          let r := opVoidFn tr f a out
+          if f = logName then showRes (r.1.map (fun _ => none), r.2) else showRes (voidRes r)
+        else "bad-request"
       | _, _, _ => "bad-request"
     | _ => "bad-request"
   | "opagg" =>
